@@ -11,7 +11,7 @@ import (
 	. "vh/vhlib"
 )
 
-var gens = map[string]GenFn{"SrcTokens": genSrcTokens}
+var gens = map[string]GenFn{"SrcTokens": genSrcTokens, "HealthOps": genHealthOps}
 
 // genSrcTokens: literal tokens / constants at named sites.
 //
@@ -64,6 +64,28 @@ func genSrcTokens(repo string) (string, error) {
 		return true
 	})
 	ok := nrange == 1
+	// the draw must be taken from exactly [0, totalClusterWeight): the single Intn call of ClusterName
+	nIntn, intnArgOK := 0, false
+	ast.Inspect(fd.Body, func(n ast.Node) bool {
+		ce, isCall := n.(*ast.CallExpr)
+		if !isCall {
+			return true
+		}
+		if se, isSel := ce.Fun.(*ast.SelectorExpr); isSel && se.Sel.Name == "Intn" && len(ce.Args) == 1 {
+			nIntn++
+			if conv, isConv := ce.Args[0].(*ast.CallExpr); isConv && len(conv.Args) == 1 {
+				if f, isId := conv.Fun.(*ast.Ident); isId && f.Name == "int" {
+					if s2, isSel2 := conv.Args[0].(*ast.SelectorExpr); isSel2 && s2.Sel.Name == "totalClusterWeight" {
+						intnArgOK = true
+					}
+				}
+			}
+		}
+		return true
+	})
+	if nIntn != 1 || !intnArgOK {
+		ok = false
+	}
 	switch op {
 	case "<":
 		b.WriteString("Definition wc_cmp (v : Z) : bool := Z.ltb v 0.\nDefinition wc_cmp_is_lt := true.\n")
@@ -75,4 +97,207 @@ func genSrcTokens(repo string) (string, error) {
 	}
 	fmt.Fprintf(&b, "Definition SrcTokens_translator_ok := %v.\n", ok)
 	return b.String(), nil
+}
+
+// ---------------------------------------------------------------------------
+// genHealthOps: control shape of cluster/health.go SetHealthFlag / ClearHealthFlag.
+//
+//	ShLoadStore : f := atomic.LoadUint64(p); f |= uint64(flag); atomic.StoreUint64(p, f)
+//	ShCasLoop   : for { old := atomic.LoadUint64(p); if atomic.CompareAndSwapUint64(p, old, old|uint64(flag)) { return } }
+//	ShRmw       : atomic.OrUint64(p, uint64(flag)) / atomic.AndUint64(p, ^uint64(flag))
+//
+// (a call `verifYield()` between the statements is ignored; a leading `if p == nil { return }` is skipped).
+// Anything else => HealthOps_translator_ok := false.
+func genHealthOps(repo string) (string, error) {
+	_, f, err := ParseGoFile(repo, "pkg/upstream/cluster/health.go")
+	if err != nil {
+		return "", err
+	}
+	var b strings.Builder
+	b.WriteString("From MV Require Import Model.Health.\n")
+	ok := true
+	for _, it := range []struct {
+		fn, def string
+		set     bool
+	}{{"SetHealthFlag", "health_set_shape", true}, {"ClearHealthFlag", "health_clear_shape", false}} {
+		fd := FindFunc(f, "", it.fn)
+		shape := ""
+		if fd != nil && fd.Body != nil {
+			shape = healthShape(fd, it.set)
+		}
+		if shape == "" {
+			ok = false
+			shape = "ShLoadStore"
+			fmt.Fprintf(&b, "(* %s: shape not recognised *)\n", it.fn)
+		}
+		fmt.Fprintf(&b, "Definition %s : shape := %s.\n", it.def, shape)
+	}
+	fmt.Fprintf(&b, "Definition HealthOps_translator_ok := %v.\n", ok)
+	return b.String(), nil
+}
+
+func isAtomicCall(e ast.Expr, name string) *ast.CallExpr {
+	c, ok := e.(*ast.CallExpr)
+	if !ok {
+		return nil
+	}
+	sel, ok := c.Fun.(*ast.SelectorExpr)
+	if !ok || sel.Sel.Name != name {
+		return nil
+	}
+	if id, ok := sel.X.(*ast.Ident); !ok || id.Name != "atomic" {
+		return nil
+	}
+	return c
+}
+
+func identName(e ast.Expr) string {
+	if id, ok := e.(*ast.Ident); ok {
+		return id.Name
+	}
+	return ""
+}
+
+// isFlagExpr: uint64(flag) (flag = the second parameter)
+func isFlagExpr(e ast.Expr, flag string) bool {
+	if p, ok := e.(*ast.ParenExpr); ok {
+		return isFlagExpr(p.X, flag)
+	}
+	c, ok := e.(*ast.CallExpr)
+	return ok && identName(c.Fun) == "uint64" && len(c.Args) == 1 && identName(c.Args[0]) == flag
+}
+func isNotFlagExpr(e ast.Expr, flag string) bool {
+	if p, ok := e.(*ast.ParenExpr); ok {
+		return isNotFlagExpr(p.X, flag)
+	}
+	u, ok := e.(*ast.UnaryExpr)
+	return ok && u.Op == token.XOR && isFlagExpr(u.X, flag)
+}
+
+// isUpdateExpr: v | uint64(flag) (set) ; v &^ uint64(flag) or v & ^uint64(flag) (clear)
+func isUpdateExpr(e ast.Expr, v, flag string, set bool) bool {
+	if p, ok := e.(*ast.ParenExpr); ok {
+		return isUpdateExpr(p.X, v, flag, set)
+	}
+	be, ok := e.(*ast.BinaryExpr)
+	if !ok || identName(be.X) != v {
+		return false
+	}
+	if set {
+		return be.Op == token.OR && isFlagExpr(be.Y, flag)
+	}
+	return (be.Op == token.AND_NOT && isFlagExpr(be.Y, flag)) || (be.Op == token.AND && isNotFlagExpr(be.Y, flag))
+}
+
+func healthShape(fd *ast.FuncDecl, set bool) string {
+	params := fd.Type.Params.List
+	var names []string
+	for _, p := range params {
+		for _, n := range p.Names {
+			names = append(names, n.Name)
+		}
+	}
+	if len(names) != 2 {
+		return ""
+	}
+	ptr, flag := names[0], names[1]
+	// strip `if p == nil { return }` and verifYield() calls
+	strip := func(in []ast.Stmt) []ast.Stmt {
+		var out []ast.Stmt
+		for i, st := range in {
+			if is, ok := st.(*ast.IfStmt); ok && i == 0 && is.Init == nil && is.Else == nil && len(is.Body.List) == 1 {
+				if be, ok := is.Cond.(*ast.BinaryExpr); ok && be.Op == token.EQL && identName(be.X) == ptr && identName(be.Y) == "nil" {
+					if rs, ok := is.Body.List[0].(*ast.ReturnStmt); ok && len(rs.Results) == 0 {
+						continue
+					}
+				}
+			}
+			if es, ok := st.(*ast.ExprStmt); ok {
+				if c, ok := es.X.(*ast.CallExpr); ok && identName(c.Fun) == "verifYield" && len(c.Args) == 0 {
+					continue
+				}
+			}
+			out = append(out, st)
+		}
+		return out
+	}
+	// v := atomic.LoadUint64(p)
+	loadVar := func(st ast.Stmt) string {
+		as, ok := st.(*ast.AssignStmt)
+		if !ok || as.Tok != token.DEFINE || len(as.Lhs) != 1 || len(as.Rhs) != 1 {
+			return ""
+		}
+		c := isAtomicCall(as.Rhs[0], "LoadUint64")
+		if c == nil || len(c.Args) != 1 || identName(c.Args[0]) != ptr {
+			return ""
+		}
+		return identName(as.Lhs[0])
+	}
+	body := strip(fd.Body.List)
+	switch len(body) {
+	case 1:
+		// ShRmw
+		if es, ok := body[0].(*ast.ExprStmt); ok {
+			if set {
+				if c := isAtomicCall(es.X, "OrUint64"); c != nil && len(c.Args) == 2 && identName(c.Args[0]) == ptr && isFlagExpr(c.Args[1], flag) {
+					return "ShRmw"
+				}
+			} else {
+				if c := isAtomicCall(es.X, "AndUint64"); c != nil && len(c.Args) == 2 && identName(c.Args[0]) == ptr && isNotFlagExpr(c.Args[1], flag) {
+					return "ShRmw"
+				}
+			}
+			return ""
+		}
+		// ShCasLoop
+		fs, ok := body[0].(*ast.ForStmt)
+		if !ok || fs.Init != nil || fs.Cond != nil || fs.Post != nil {
+			return ""
+		}
+		lb := strip(append([]ast.Stmt{&ast.EmptyStmt{}}, fs.Body.List...))[1:]
+		if len(lb) != 2 {
+			return ""
+		}
+		v := loadVar(lb[0])
+		is, ok := lb[1].(*ast.IfStmt)
+		if v == "" || !ok || is.Init != nil || is.Else != nil || len(is.Body.List) != 1 {
+			return ""
+		}
+		if rs, ok := is.Body.List[0].(*ast.ReturnStmt); !ok || len(rs.Results) != 0 {
+			return ""
+		}
+		c := isAtomicCall(is.Cond, "CompareAndSwapUint64")
+		if c == nil || len(c.Args) != 3 || identName(c.Args[0]) != ptr || identName(c.Args[1]) != v || !isUpdateExpr(c.Args[2], v, flag, set) {
+			return ""
+		}
+		return "ShCasLoop"
+	case 3:
+		// ShLoadStore
+		v := loadVar(body[0])
+		if v == "" {
+			return ""
+		}
+		as, ok := body[1].(*ast.AssignStmt)
+		if !ok || len(as.Lhs) != 1 || len(as.Rhs) != 1 || identName(as.Lhs[0]) != v {
+			return ""
+		}
+		switch {
+		case set && as.Tok == token.OR_ASSIGN && isFlagExpr(as.Rhs[0], flag):
+		case !set && as.Tok == token.AND_NOT_ASSIGN && isFlagExpr(as.Rhs[0], flag):
+		case !set && as.Tok == token.AND_ASSIGN && isNotFlagExpr(as.Rhs[0], flag):
+		case as.Tok == token.ASSIGN && isUpdateExpr(as.Rhs[0], v, flag, set):
+		default:
+			return ""
+		}
+		es, ok := body[2].(*ast.ExprStmt)
+		if !ok {
+			return ""
+		}
+		c := isAtomicCall(es.X, "StoreUint64")
+		if c == nil || len(c.Args) != 2 || identName(c.Args[0]) != ptr || identName(c.Args[1]) != v {
+			return ""
+		}
+		return "ShLoadStore"
+	}
+	return ""
 }
